@@ -74,6 +74,64 @@ type c01Env struct {
 	readErr  bool
 	appSnap  map[any]any // entries of the attributes the application passed with the op in progress
 	attrLost bool        // the bottom writer did not receive them
+	// a chain with a pacing cc member (`ccpaced`) delivers asynchronously: the application packet is recognised by
+	// (SSRC, sequence number, payload) instead of the header pointer
+	paced   bool
+	pending map[string]int // accepted application packets that have not reached the bottom writer yet
+	known   map[string]int // how often each application packet was written
+	arrived map[string]int // how often it reached the bottom writer
+	pacedBn int
+	nFail   int
+	failLog []error // values returned by failing bottom calls during the op in progress
+	// every error value handed to a (nested) mock member as its Close error
+	closeErrs []error
+}
+
+// c01BottomErr is the error value of ONE failing call of the bottom writer/reader: it wraps errBottom (so the kind
+// printed for the model is unchanged) and is distinct from the value of every other failing call.  When several
+// writes fail during one application Write (the application's packet and repair packets injected behind it), the
+// error the application gets must answer errors.Is for EVERY one of them.
+type c01BottomErr struct {
+	n    int
+	what string
+	rtcp bool
+}
+
+func (e *c01BottomErr) Error() string { return fmt.Sprintf("%v (failing call #%d: %s)", errBottom, e.n, e.what) }
+func (e *c01BottomErr) Unwrap() error { return errBottom }
+
+func (env *c01Env) fail(what string) error {
+	env.nFail++
+	e := &c01BottomErr{n: env.nFail, what: what, rtcp: strings.Contains(what, "RTCP")}
+	env.failLog = append(env.failLog, e)
+	return e
+}
+
+// lostErrs prints an ERROR-LOST line for every value a failing bottom call returned during the op that errors.Is
+// does not find in the error the application got.
+func (env *c01Env) lostErrs(err error, rtcp bool) {
+	for _, e := range env.failLog {
+		if be, _ := e.(*c01BottomErr); be != nil && be.rtcp == rtcp && !errors.Is(err, e) { //nolint:errorlint // own values
+			env.o.P("ERROR-LOST the bottom writer returned %q during this Write; errors.Is does not find it in what the application got: %s",
+				e.Error(), strings.ReplaceAll(fmt.Sprint(err), "\n", " | "))
+		}
+	}
+	env.failLog = nil
+}
+
+func c01Key(h *rtp.Header, p []byte) string {
+	return fmt.Sprintf("%d/%d/%x", h.SSRC, h.SequenceNumber, p)
+}
+
+// isApp: is this the application packet (of the Write in progress, or - behind a pacer - one still on its way)?
+func (env *c01Env) isApp(h *rtp.Header, p []byte) bool {
+	if h == nil {
+		return false
+	}
+	if h == env.curHdr {
+		return true
+	}
+	return env.paced && env.known[c01Key(h, p)] > 0
 }
 
 // closeErrOf builds the error a mock's Close returns from its code.
@@ -147,10 +205,19 @@ func (env *c01Env) factoryOf(code string, idx, opt int) (interceptor.Factory, bo
 		f, err = rtpfb.NewInterceptor(rtpfb.WithLoggerFactory(lf))
 	case "stats":
 		f, err = stats.NewInterceptor(stats.WithLoggerFactory(lf))
-	case "pdsend":
-		f, err = packetdump.NewSenderInterceptor(packetdump.RTPWriter(io.Discard), packetdump.RTCPWriter(io.Discard), packetdump.WithLoggerFactory(lf))
-	case "pdrecv":
-		f, err = packetdump.NewReceiverInterceptor(packetdump.RTPWriter(io.Discard), packetdump.RTCPWriter(io.Discard), packetdump.WithLoggerFactory(lf))
+	case "pdsend", "pdrecv":
+		// the dump output is an io.Writer of the application's (a file, a pipe): in one row of the option table every
+		// second write to it fails, with the well-known error values in turn (ambient_test.go) - the interceptor stays
+		// transparent for the traffic whatever its log does
+		out := io.Writer(io.Discard)
+		if v == 1 {
+			out = &AmbFailWriter{Sched: parseSched("%2"), Kinds: AmbErrKinds}
+		}
+		if parts[0] == "pdsend" {
+			f, err = packetdump.NewSenderInterceptor(packetdump.RTPWriter(out), packetdump.RTCPWriter(out), packetdump.WithLoggerFactory(lf))
+		} else {
+			f, err = packetdump.NewReceiverInterceptor(packetdump.RTPWriter(out), packetdump.RTCPWriter(out), packetdump.WithLoggerFactory(lf))
+		}
 	case "pli":
 		f, err = intervalpli.NewReceiverInterceptor(intervalpli.GeneratorInterval(ms*10), intervalpli.WithLoggerFactory(lf))
 	case "fec":
@@ -163,6 +230,18 @@ func (env *c01Env) factoryOf(code string, idx, opt int) (interceptor.Factory, bo
 			return gcc.NewSendSideBWE(gcc.SendSideBWEPacer(gcc.NewNoOpPacer()), gcc.WithLoggerFactory(lf),
 				gcc.SendSideBWEInitialBitrate([]int{100_000, 1_000_000, 5_000_000}[v]))
 		})
+	case "ccpaced":
+		// the congestion controller as an application configures it when it only sets bitrates: the DEFAULT
+		// (leaky bucket) pacer, bitrate options init:min:max - also very low ones, init = min, init = max
+		if len(parts) != 4 {
+			return nil, false
+		}
+		ini, mn, mx := atoi(parts[1]), atoi(parts[2]), atoi(parts[3])
+		f, err = cc.NewInterceptor(func() (cc.BandwidthEstimator, error) {
+			return gcc.NewSendSideBWE(gcc.WithLoggerFactory(lf), gcc.SendSideBWEInitialBitrate(ini),
+				gcc.SendSideBWEMinBitrate(mn), gcc.SendSideBWEMaxBitrate(mx))
+		})
+		env.paced, env.pacedBn = true, ini
 	case "mock":
 		if len(parts) != 2 {
 			return nil, false
@@ -173,6 +252,28 @@ func (env *c01Env) factoryOf(code string, idx, opt int) (interceptor.Factory, bo
 		}
 		m := &c01Mock{idx: idx}
 		env.mocks = append(env.mocks, m)
+		if strings.HasPrefix(parts[1], "sub") {
+			// a Chain that is itself a member of the chain (an application groups interceptors): its first member is
+			// the counting mock, the others fail in Close with their own values.  Its Close error is a multi-error
+			// INSIDE the outer one, at whatever position the member has, with failing siblings before and after it.
+			var leaves []error
+			for _, p := range strings.Split(parts[1], "-")[1:] {
+				e, _ := closeErrOf(p)
+				leaves = append(leaves, e)
+			}
+			env.closeErrs = append(env.closeErrs, leaves...)
+			f = &mock.Factory{NewInterceptorFn: func(string) (interceptor.Interceptor, error) {
+				members := []interceptor.Interceptor{env.mockInterceptor(m, nil)}
+				for _, e := range leaves {
+					members = append(members, &mock.Interceptor{CloseFn: func() error { return e }})
+				}
+				return interceptor.NewChain(members), nil
+			}}
+			break
+		}
+		if closeErr != nil {
+			env.closeErrs = append(env.closeErrs, closeErr)
+		}
 		f = &mock.Factory{NewInterceptorFn: func(string) (interceptor.Interceptor, error) { return env.mockInterceptor(m, closeErr), nil }}
 	default:
 		return nil, false
@@ -204,7 +305,7 @@ func (env *c01Env) mockInterceptor(m *c01Mock, closeErr error) interceptor.Inter
 		BindLocalStreamFn: func(_ *interceptor.StreamInfo, w interceptor.RTPWriter) interceptor.RTPWriter {
 			m.bindL++
 			return interceptor.RTPWriterFunc(func(h *rtp.Header, p []byte, a interceptor.Attributes) (int, error) {
-				if h == env.curHdr {
+				if env.isApp(h, p) {
 					m.seenW++
 				}
 				return w.Write(h, p, a)
@@ -360,7 +461,7 @@ func c01Run(t *testing.T, ops []string, o *Out) {
 }
 
 func c01RunBubble(t *testing.T, ops []string, o *Out) { //nolint:gocognit,cyclop,maintidx
-	env := &c01Env{o: o}
+	env := &c01Env{o: o, pending: map[string]int{}, known: map[string]int{}, arrived: map[string]int{}}
 	var chain interceptor.Interceptor
 	hasHdrExt := false
 	closed := false
@@ -451,13 +552,13 @@ func c01RunBubble(t *testing.T, ops []string, o *Out) { //nolint:gocognit,cyclop
 							o.P("cb pk=%s", hexs(raw))
 						}
 						if env.bf {
-							return env.bn, errBottom
+							return env.bn, env.fail("application RTCP")
 						}
 						return env.bn, nil
 					}
 					env.injRTCP++
 					if env.ifl {
-						return 0, errBottom
+						return 0, env.fail("injected RTCP")
 					}
 					return 0, nil
 				}))
@@ -476,9 +577,20 @@ func c01RunBubble(t *testing.T, ops []string, o *Out) { //nolint:gocognit,cyclop
 				st := &c01Stream{info: info, twID: id}
 				infoWas := cloneInfo(info)
 				st.writer = chain.BindLocalStream(info, interceptor.RTPWriterFunc(func(h *rtp.Header, p []byte, ba interceptor.Attributes) (int, error) {
-					if h != nil && h == env.curHdr {
+					if env.isApp(h, p) {
 						if !c01AttrsHold(ba, env.appSnap) {
 							env.attrLost = true
+						}
+						if env.paced {
+							k := c01Key(h, p)
+							env.arrived[k]++
+							if env.pending[k] > 0 {
+								env.pending[k]--
+							}
+							if env.arrived[k] > env.known[k] {
+								o.P("DUPLICATE the pacer handed the application packet ssrc=%d seq=%d to the next writer %d times, it was written %d times",
+									h.SSRC, h.SequenceNumber, env.arrived[k], env.known[k])
+							}
 						}
 						c := h.Clone()
 						if hasHdrExt && st.twID != 0 {
@@ -492,13 +604,17 @@ func c01RunBubble(t *testing.T, ops []string, o *Out) { //nolint:gocognit,cyclop
 						}
 						o.P("b hdr=%s pad=%d pl=%s", hdrHex(&c), c.PaddingSize, hexs(p))
 						if env.bf {
-							return env.bn, errBottom
+							return env.bn, env.fail("application packet")
 						}
 						return env.bn, nil
 					}
 					env.injRTP++
 					if env.ifl {
-						return 0, errBottom
+						what := "injected packet"
+						if h != nil {
+							what = fmt.Sprintf("injected packet ssrc=%d pt=%d seq=%d", h.SSRC, h.PayloadType, h.SequenceNumber)
+						}
+						return 0, env.fail(what)
 					}
 					return len(p), nil
 				}))
@@ -537,7 +653,10 @@ func c01RunBubble(t *testing.T, ops []string, o *Out) { //nolint:gocognit,cyclop
 				} else {
 					o.InfoGuard("UnbindRemoteStream", st.info, func() { chain.UnbindRemoteStream(st.info) })
 				}
-			case "w":
+			case "w", "pw":
+				// `pw`: a write into a chain that may hold a pacing member.  Delivery to the bottom writer is then
+				// asynchronous: the harness lets virtual time pass until the accepted packet has arrived (the `b` line)
+				// or a generous bound has expired; the value n is the pacer's own and is not compared.
 				st, ok := locals[atoi(m["s"])]
 				h, ok2 := parseHdr(m)
 				pl, ok3 := unhex(m["pl"])
@@ -550,9 +669,37 @@ func c01RunBubble(t *testing.T, ops []string, o *Out) { //nolint:gocognit,cyclop
 				attrs, snap := c01AppAttrs(c01At(m, opi))
 				env.appSnap, env.attrLost = snap, false
 				inj0 := env.injRTP
+				env.failLog = nil
+				key := c01Key(h, pl)
+				if env.paced && name == "pw" {
+					env.known[key]++
+					env.pending[key]++
+				}
 				n, err := st.writer.Write(h, pl, attrs)
 				env.curHdr = nil
-				o.P("ret n=%d err=%s", n, c01ErrKinds(err))
+				if name == "pw" {
+					if env.paced && err != nil { // refused by a member above the pacer: nothing is on its way
+						env.known[key]--
+						env.pending[key]--
+					}
+					if env.paced && err == nil {
+						rate := max(env.pacedBn, 1)
+						bound := 2*time.Second + 4*time.Duration(8000/rate+1)*time.Millisecond
+						for waited := time.Duration(0); env.pending[key] > 0 && waited < bound; waited += 5 * time.Millisecond {
+							time.Sleep(5 * time.Millisecond)
+							synctest.Wait()
+						}
+						if env.pending[key] > 0 {
+							o.P("UNDELIVERED the accepted application packet ssrc=%d seq=%d did not reach the next writer within %v of virtual time (configured bitrate %d bit/s)",
+								h.SSRC, h.SequenceNumber, bound, env.pacedBn)
+							env.pending[key] = 0
+						}
+					}
+					o.P("pret err=%s", c01ErrKinds(err))
+				} else {
+					o.P("ret n=%d err=%s", n, c01ErrKinds(err))
+					env.lostErrs(err, false)
+				}
 				if env.attrLost || !c01AttrsHold(attrs, snap) {
 					o.P("ATTR-CHANGED on write: the application's attribute entries did not reach the bottom writer unchanged")
 				}
@@ -602,9 +749,11 @@ func c01RunBubble(t *testing.T, ops []string, o *Out) { //nolint:gocognit,cyclop
 				}
 				attrs, snap := c01AppAttrs(at)
 				env.appSnap, env.attrLost = snap, false
+				env.failLog = nil
 				n, err := rtcpW.Write(pkts, attrs)
 				env.curPkts = nil
 				o.P("ret n=%d err=%s", n, c01ErrKinds(err))
+				env.lostErrs(err, true)
 				if env.attrLost || !c01AttrsHold(attrs, snap) {
 					o.P("ATTR-CHANGED on rtcp write: the application's attribute entries did not reach the bottom writer unchanged")
 				}
@@ -641,6 +790,12 @@ func c01RunBubble(t *testing.T, ops []string, o *Out) { //nolint:gocognit,cyclop
 					kind = "multi"
 				}
 				o.P("closed err=%s is=%s", kind, is)
+				for _, e := range env.closeErrs {
+					// every member's own error VALUE (not only its sentinel) is reported: errors.Is finds each
+					if !errors.Is(err, e) {
+						o.P("CLOSE-ERROR-LOST a member's Close returned %q; errors.Is does not find it in the chain's Close error", e.Error())
+					}
+				}
 				for _, mk := range env.mocks {
 					o.P("mock i=%d close=%d bl=%d br=%d ul=%d ur=%d cw=%d cr=%d sw=%d sr=%d scw=%d scr=%d", mk.idx, mk.close,
 						mk.bindL, mk.bindR, mk.unbindL, mk.unbindR, mk.bindCW, mk.bindCR, mk.seenW, mk.seenR, mk.seenCW, mk.seenCR)
@@ -760,9 +915,16 @@ func c01Gen(r *Rng, tier string, idx int) Case { //nolint:gocognit,cyclop,mainti
 	// with and without the 12 bytes of the fixed header, and around an Ethernet MTU).  Every one of them must reach
 	// the bottom writer unchanged and the write return what the bottom writer returned; the only member that rejects
 	// by size is the NACK responder (payload above 1460: `shortbuf`, as the model says).
-	classes := []string{"write", "read", "rtcp", "mixed", "faults", "malformed", "guards", "close", "empty", "order3", "rtxpad", "bigfec"}
+	// class `paced`: the congestion controller with its DEFAULT pacer (what an application gets that only sets bitrate
+	// options) sits in the chain, at unusual but legal bitrates - a few hundred bit/s, init = min, init = max, the
+	// package defaults.  Delivery is asynchronous, so the application write is the op `pw`: every accepted packet
+	// still reaches the bottom writer exactly once, intact, within a generous bound of virtual time.  Members that can
+	// refuse a packet stay above the pacer (their error is the application's); no RTCP is read (a NACK would make
+	// the responder resend through the pacer, an estimate would move the rate).
+	classes := []string{"write", "read", "rtcp", "mixed", "faults", "malformed", "guards", "close", "empty", "order3", "rtxpad", "bigfec", "paced"}
 	cl := classes[idx%len(classes)]
 	var ops []string
+	pacedTw := false
 
 	// ---- the chain: subset + permutation of the pool, mocks at random positions
 	var members []string
@@ -811,6 +973,29 @@ func c01Gen(r *Rng, tier string, idx int) Case { //nolint:gocognit,cyclop,mainti
 		nm := r.Pick(1, 2, 2, 3)
 		members[at] = fmt.Sprintf("fec:%d:%d", nm, r.Range(1, min(2, nm)))
 	}
+	if cl == "paced" {
+		pick := func(from []string, n int) []string {
+			from = append([]string(nil), from...)
+			for i := len(from) - 1; i > 0; i-- {
+				j := r.Intn(i + 1)
+				from[i], from[j] = from[j], from[i]
+			}
+			return from[:n]
+		}
+		grid := [][3]int{{800, 500, 1_000_000}, {1000, 1000, 1000}, {1000, 1000, 5_000_000}, {1500, 100, 2000}, {100, 50, 200},
+			{10_000, 5_000, 50_000_000}, {64_000, 64_000, 64_000}, {5_000_000, 10_000, 5_000_000}, {2000, 1000, 4000},
+			{r.Range(100, 3000), 100, 3000}}
+		g := grid[r.Intn(len(grid))]
+		members = pick([]string{"noop", "stats", "pdsend", "pdrecv", "sr", "rr", "pli", "nackgen"}, r.Intn(3))
+		members = append(members, fmt.Sprintf("ccpaced:%d:%d:%d", g[0], g[1], g[2]))
+		above := pick([]string{"noop", "stats", "pdsend", "nackresp", "sr", "rr", "rtpfb", "twccsend", "rfc8888", "pli", "nackgen"}, r.Intn(4))
+		if pacedTw = r.Chance(2, 3); pacedTw {
+			above = append(above, "hdrext") // transport-cc is negotiated: the numbering interceptor is above cc, as it has to be
+			k := r.Intn(len(above))
+			above[k], above[len(above)-1] = above[len(above)-1], above[k]
+		}
+		members = append(members, above...)
+	}
 	nMock := r.Intn(4)
 	if cl == "close" {
 		nMock = r.Range(2, 6)
@@ -818,6 +1003,16 @@ func c01Gen(r *Rng, tier string, idx int) Case { //nolint:gocognit,cyclop,mainti
 	for i := 0; i < nMock; i++ {
 		pos := r.Intn(len(members) + 1)
 		members = append(members[:pos], append([]string{"mock:" + c01CloseErr(r)}, members[pos:]...)...)
+	}
+	if cl == "close" && r.Chance(2, 3) {
+		// a Chain that is itself a member, FIRST, in the MIDDLE or LAST, one to three of its own members failing in Close,
+		// between siblings that (mostly) fail too: errors.Is on the outer Close error finds every one of them
+		leaves := []string{"sub"}
+		for i := r.Range(1, 3); i > 0; i-- {
+			leaves = append(leaves, fmt.Sprintf("%s%d", []string{"e", "w"}[r.Intn(2)], r.Range(1, 3)))
+		}
+		pos := r.Pick(0, len(members)/2, len(members))
+		members = append(members[:pos], append([]string{"mock:" + strings.Join(leaves, "-")}, members[pos:]...)...)
 	}
 	if cl == "empty" && r.Chance(1, 3) {
 		pos := r.Intn(len(members) + 1)
@@ -897,6 +1092,11 @@ func c01Gen(r *Rng, tier string, idx int) Case { //nolint:gocognit,cyclop,mainti
 		if cl == "guards" && r.Chance(1, 4) {
 			g.tw = r.Pick(15, 200)
 		}
+		if cl == "paced" && kind == "local" {
+			if g.tw = -1000; pacedTw {
+				g.tw = r.Range(1, 14)
+			}
+		}
 		tw := "-"
 		if g.tw != -1000 {
 			tw = c15Decls(r, g.tw)
@@ -945,6 +1145,9 @@ func c01Gen(r *Rng, tier string, idx int) Case { //nolint:gocognit,cyclop,mainti
 	if cl == "close" || cl == "empty" {
 		n = r.Range(0, 8)
 	}
+	if cl == "paced" {
+		n = r.Range(4, 24)
+	}
 	for i := 0; i < n; i++ {
 		kind := r.Intn(10)
 		switch cl {
@@ -958,6 +1161,8 @@ func c01Gen(r *Rng, tier string, idx int) Case { //nolint:gocognit,cyclop,mainti
 			kind = r.Pick(0, 0, 0, 0, 0, 0, 6, 7, 9)
 		case "bigfec":
 			kind = r.Pick(0, 0, 0, 0, 0, 0, 0, 1, 7, 9)
+		case "paced":
+			kind = r.Pick(0, 0, 0, 0, 0, 0, 1, 5, 7, 9)
 		}
 		switch {
 		case kind <= 0 || kind == 2 || kind == 3: // application RTP write
@@ -985,7 +1190,7 @@ func c01Gen(r *Rng, tier string, idx int) Case { //nolint:gocognit,cyclop,mainti
 			if r.Chance(1, 12) {
 				g.seq += r.Pick(1, 2, 100, -3) // a gap: the FEC batch is not consecutive
 			}
-			if (cl == "guards" && r.Chance(1, 4)) || r.Chance(1, 40) {
+			if (cl == "guards" && r.Chance(1, 4)) || (cl != "paced" && r.Chance(1, 40)) {
 				// foreign SSRC: never the SSRC of another bound stream (cc's pacer would route it there)
 				h.SSRC = int(fresh())
 			}
@@ -1042,6 +1247,10 @@ func c01Gen(r *Rng, tier string, idx int) Case { //nolint:gocognit,cyclop,mainti
 			}
 			sentSeqs[g.ssrc] = append(sentSeqs[g.ssrc], uint16(h.Seq))
 			bn := r.Pick(len(pl), len(pl)+12, 0, 1500)
+			if cl == "paced" {
+				ops = append(ops, fmt.Sprintf("pw s=%d %s pl=%s bn=%d bf=0 if=0 at=%d", s, h.String(), hexs(pl), bn, r.Intn(5)))
+				continue
+			}
 			ops = append(ops, fmt.Sprintf("w s=%d %s pl=%s bn=%d bf=%d if=%d at=%d", s, h.String(), hexs(pl), bn, b01(r.Chance(1, faultP)), b01(r.Chance(1, faultP)), r.Intn(5)))
 		case kind == 1 || kind == 4: // RTP read
 			s := r.Intn(nr)
